@@ -68,6 +68,9 @@ def jobs(tier, seed):
         out.append({'fn': 'trace', 'tier': tier, 'seed': seed, 'k': k})
     for k in range(4 if tier == 'quick' else 1):
         out.append({'fn': 'history', 'tier': tier, 'seed': seed, 'k': k})
+    for f in ('cdp_rho', 'cdp_eps', 'cdp_delta'):
+        for nm in SPELL:
+            out.append({'fn': 'types', 'tier': tier, 'seed': seed, 'target': f, 'spelled': nm})
     return out
 
 
@@ -201,15 +204,18 @@ def loop_lines(m):
                 break
             if src[i].strip().replace(' ', '') == marker:
                 hits.append(i + 1)
-        if len(hits) != 1:
-            raise RuntimeError('trace monitor: cannot locate the loop of %s (marker %r)' % (fn, marker))
-        out[fn] = hits[0]
+        # a re-organised search loop is not a violation: the monitor is then not attached to this function
+        # (outcome 'trace-unavailable') and the input/output clauses of the other jobs decide alone
+        out[fn] = hits[0] if len(hits) == 1 else None
     return out
 
 
 def monitored(m, fn, args, acc, case):
     lines = loop_lines(m)
     target_line = lines[fn]
+    if target_line is None:
+        acc.outcome('trace-unavailable:' + fn)
+        return getattr(m, fn)(*args)
     mfile = os.path.realpath(m.__file__)
     st = {'n': 0, 'prev': None, 'init': None, 'bad': []}
 
@@ -287,6 +293,41 @@ def check_trace(acc, job):
     acc.sample({'trace': 'cdp_rho', 'args': [es[a], ds[b]], 'loop_states': 1000})
 
 
+SPELL = {'int': int, 'np.int64': np.int64, 'np.float32': np.float32, '0-d array': lambda v: np.array(float(v))}
+
+
+def check_types(acc, job):
+    """the conversions are functions of the VALUES of their arguments: the same numbers spelled as Python ints, numpy integers,
+    numpy float32/float64 scalars or 0-d arrays give the same result as the Python-float call"""
+    m = cdp()
+    spell = SPELL
+    ints = [1, 3, 10]
+    deltas = [1e-9, 0.1]
+    for fn, firsts, seconds in (('cdp_rho', ints, deltas), ('cdp_eps', ints, deltas), ('cdp_delta', ints, [2, 7, 0.5])):
+        if job.get('target', fn) != fn:
+            continue
+        for a in firsts:
+            for b in seconds:
+                ref = getattr(m, fn)(float(a), float(b))
+                for nm, conv in spell.items():
+                    if job.get('spelled', nm) != nm:
+                        continue
+                    for which in (0, 1):
+                        if which == 1 and (float(b) != int(b)) and 'int' in nm:
+                            continue
+                        args = [float(a), float(b)]
+                        args[which] = conv(args[which]) if 'int' not in nm else conv(int(args[which]))
+                        case = {'fn': 'types:' + fn, 'args': [float(a), float(b)], 'spelled': nm, 'position': which}
+                        acc.case(case)
+                        got = getattr(m, fn)(*args)
+                        tol = 1e-5 if nm == 'np.float32' else 1e-9     # a float32 argument makes numpy carry the whole search in single precision
+                        if not (abs(float(got) - float(ref)) <= tol * abs(float(ref)) + 1e-300):
+                            acc.violate(case, {'kind': 'argument-type', 'fn': fn, 'spelled': nm},
+                                        '%s(%r, %r) with argument %d spelled as %s gives %r, the float call gives %r' % (fn, a, b, which, nm, got, ref))
+                        acc.outcome('types')
+    acc.sample(case)
+
+
 def fresh_module():
     import matplotlib
     matplotlib.use('Agg')
@@ -347,7 +388,7 @@ def run_job(job):
     if job['fn'] == 'history':
         check_history(acc, job)
         return acc
-    {'delta': check_delta_rows, 'rho': check_rho_col, 'eps': check_eps_col, 'trace': check_trace}[job['fn']](acc, job)
+    {'delta': check_delta_rows, 'rho': check_rho_col, 'eps': check_eps_col, 'trace': check_trace, 'types': check_types}[job['fn']](acc, job)
     if job['fn'] != 'trace':
         acc.states += acc.evals
         acc.transitions += acc.evals
@@ -381,6 +422,10 @@ def replay(case):
         return acc.violations
     if fn.startswith('trace:'):
         monitored(m, fn[6:], tuple(case['args']), acc, case)
+    elif fn.startswith('types:'):
+        check_types(acc, {'target': fn[6:], 'spelled': case['spelled']})
+        for v in acc.violations[:5]:
+            print(v['msg'])
     else:
         # re-run exactly the per-point clauses of the sweep on a one-point grid
         if fn == 'cdp_delta':
